@@ -6,6 +6,7 @@ package syntax
 
 import (
 	"bytes"
+	"unicode/utf16"
 	"unicode/utf8"
 )
 
@@ -128,12 +129,23 @@ func unquoteBytes(value []byte) []byte {
 					buf = append(buf, runeError()...)
 					value = value[len(value):]
 				} else {
-					var enc [3]byte
-					n := utf8.EncodeRune(enc[:],
-						rune(parseHexByte(value[2], value[3]))+
-							(rune(parseHexByte(value[0], value[1]))<<8))
-					buf = append(buf, enc[:n]...)
+					r := rune(parseHexByte(value[2], value[3])) +
+						(rune(parseHexByte(value[0], value[1])) << 8)
 					value = value[4:]
+					if utf16.IsSurrogate(r) && len(value) >= 6 &&
+						value[0] == '\\' && value[1] == 'u' {
+						// json encodes characters outside of the basic
+						// multilingual plane as a utf-16 surrogate pair.
+						if r2 := utf16.DecodeRune(r,
+							rune(parseHexByte(value[4], value[5]))+
+								(rune(parseHexByte(value[2], value[3]))<<8)); r2 != utf8.RuneError {
+							r = r2
+							value = value[6:]
+						}
+					}
+					var enc [utf8.UTFMax]byte
+					n := utf8.EncodeRune(enc[:], r)
+					buf = append(buf, enc[:n]...)
 				}
 			case 'U':
 				// four-byte hex-encoded unicode.
